@@ -15,7 +15,13 @@ _DT["t"] = DTree
 GLUE_PREAMBLE = "let rec d_dtree s = (%s) s" % DTree.dec()
 VIT = CheckFn("viterbi", "Model.Viterbi", "vit_check",
               Tup(GrammarT, List(Tup(Nat, List(TropV))), List(Nat), Nat, Tup(Nat, DTreeRec, TropV, TropB)), imports=["Model.SumProduct"])
-CHECKFNS = [VIT]
+# the code-shaped model of viterbi.py (Model/ViterbiAlg.v): F_viterbi with pointer tables, the
+# per-component loop with the pointer merge, reconstruct; compared with the implementation's derivation
+ALG = CheckFn("viterbi_alg", "Model.ViterbiAlg", "vit_alg_check",
+              Tup(GrammarT, List(Tup(Nat, List(TropV))), List(Nat), Tup(Nat, QQ), Tup(Nat, DTreeRec)), imports=["Model.SumProduct"])
+CHECKFNS = [VIT, ALG]
+KMAX = 1000                      # viterbi's defaults, passed to the model as well
+TOL = Fraction(1, 10**6)
 ASSUMPTIONS = [
     "integer log-weights, so float arithmetic is exact and ties are frequent; any optimal derivation is accepted",
     "the optimum is the exact Viterbi-semiring least fixed point computed by the Coq model (Kleene iteration to a fixed point); start assignments whose optimum is -inf or +inf are outside the property and skipped",
@@ -96,12 +102,14 @@ def classify(spec, tree_or_exc):
 def run(tier, seed):
     rng = random.Random(seed)
     n = int(os.environ.get("VERIF_N", 0)) or (260 if tier == "quick" else 4000)
-    violations = []; vals = []; meta = []; feats = {}; distinct = set()
+    violations = []; vals = []; avals = []; meta = []; feats = {}; distinct = set()
     import sys
     sys.setrecursionlimit(3000)
     for i in range(n):
         rec = (i % 3 == 0)
-        spec = gen.chain_spec(rng) if i % 6 == 3 else gen.random_spec(rng, recursive=rec, allow_inf=False, max_nt=3, max_dom=2 if rec else 3,
+        # every 12th case: a long chain (3-4 nonterminals x 3-4 states: the optimum needs up to ~16 passes of the
+        # fixed-point loop, so a wrong iteration cap or a lost pointer shows)
+        spec = gen.chain_spec(rng, n_nt=rng.randint(3, 4), dom=rng.randint(3, 4)) if i % 12 == 9 else gen.chain_spec(rng) if i % 6 == 3 else gen.random_spec(rng, recursive=rec, allow_inf=False, max_nt=3, max_dom=2 if rec else 3,
                                max_nodes=3 if rec else 4, max_edges=3 if rec else 4, linear=rng.choice([None, False]) if rec else None, dup_ext=False)
         spec["weights"] = {el: gen.nested_map(w, lambda v: v if v <= 1 else Fraction(1, 2)) for el, w in spec["weights"].items()}
         key = json.dumps(gen.spec_jsonable(spec), sort_keys=True); distinct.add(key)
@@ -122,6 +130,7 @@ def run(tier, seed):
                 obs = (0, tree, tv(dw) if not isinstance(dw, tuple) else (2, Fraction(0)), SRV.obs(spv))
                 note = dw[1] if isinstance(dw, tuple) else None
             vals.append((grammar_wire(spec), weights_wire(spec, SRV), list(xi), K_ENCL, obs))
+            avals.append((grammar_wire(spec), weights_wire(spec, SRV), list(xi), (KMAX, TOL), (obs[0], obs[1])))
             meta.append((spec, list(xi), obs, note))
     codes, nk = run_model(VIT, vals, seed=seed, coq_sample=6 if tier == "quick" else 40, tag="c04")
     skipped = {30: 0, 31: 0}; judged = 0
@@ -139,12 +148,33 @@ def run(tier, seed):
                                     oracle={5: "wf_dtree_b", 6: "weight = optimum", 7: "derive weight", 8: "optimum"}.get(c, "optimum finite => derivation"),
                                     corr="C04 / corr:viterbi", failing_input_found=c in WHAT, call="fggs.viterbi(fgg, %r)" % (tuple(xi),),
                                     finding_key=classify(spec, obs)))
-    cov = dict(evaluations=len(vals), distinct_nontrivial=len(distinct), judged=judged,
+    # --- the code-shaped model (pointer tables, merge, reconstruct) against the same derivations
+    # (cases whose optimum is -inf / divergent are outside the property: vit_check's 30/31 depend on the grammar only)
+    keep = [i for i, c in enumerate(codes) if c not in skipped]
+    acodes, ank = run_model(ALG, [avals[i] for i in keep], seed=seed, coq_sample=4 if tier == "quick" else 30, tag="c04alg")
+    AWHAT = {1: "viterbi raised although the code-shaped model finds a derivation of finite weight",
+             5: "returned derivation is not well formed (judged by the model-side check)",
+             10: "the implementation's derivation and the code-shaped model's derivation have different weights (one of them is not optimal; vit_check decides which)"}
+    alg = dict(exact_agreement=0, agree_up_to_ties=0, skipped_value_not_finite=0, skipped_model_not_converged=0, compared=0)
+    for (spec, xi, obs, note), c in zip([meta[i] for i in keep], acodes):
+        if c == 31: alg["skipped_value_not_finite"] += 1; continue
+        if c in (33, 34): alg["skipped_model_not_converged"] += 1; continue
+        alg["compared"] += 1
+        if c == 0: alg["exact_agreement"] += 1; continue
+        if c == 32: alg["agree_up_to_ties"] += 1; continue
+        violations.append(Violation(AWHAT.get(c, "framework inconsistency in the code-shaped viterbi model (code %d)" % c) + ((" [" + note + "]") if note else ""),
+                                    case=dict(spec=gen.spec_jsonable(spec), start_asst=xi), observed=obs,
+                                    oracle={1: "model finds a finite derivation", 5: "wf_dtree_b", 10: "weight = model's value"}.get(c, "viterbi_model"),
+                                    corr="C04 / corr:viterbi_alg (Model/ViterbiAlg.v viterbi_model)", failing_input_found=c in (1, 5),
+                                    call="fggs.viterbi(fgg, %r)" % (tuple(xi),), finding_key=classify(spec, obs)))
+    cov = dict(evaluations=len(vals), viterbi_model=alg, exact_agreement=alg["exact_agreement"], kernel_reevaluated_alg=ank, distinct_nontrivial=len(distinct), judged=judged,
                skipped_divergent=skipped[30], skipped_optimum_not_finite=skipped[31],
                rule="random FGG specs with integer log-weights in {-inf,-2,-1,0} (two thirds non-recursive, one third recursive incl. weight-0 cycles and non-linear recursion), up to two start assignments each; forced shapes: rules whose attached nodes are all external, isolated nodes, size-1 domains, nullary factors, repeated attachments; distinct by spec, all with >= 1 rule",
                feature_histogram=feats, kernel_reevaluated=nk,
                samples=[dict(spec=gen.spec_jsonable(meta[0][0]), start_asst=meta[0][1], observed=meta[0][2])] if meta else [],
-               open_items=["a Gallina model of F_viterbi's pointer tables and reconstruct (DESIGN C04_ptr_inv / C04_wf for the pointer machinery) is not built: the implementation is judged at the property's observation level by the verified oracle (C04_check_sound: well-formed + weight = exact optimum over all derivations)",
+               open_items=["the inside of log_viterbi_einsum_forward (physical/virtual axis translation of the arg-max pointers, torch_semiring_einsum's tie-breaking) is taken by contract in Model/ViterbiAlg.v (maximum + one maximiser, first in row-major order): the model and the implementation are compared up to ties (exact_agreement is reported); DESIGN's L4 argmax_einsum_model is not built",
+                           "C04_reconstruct_terminates / C04_alg_optimal need the ghost flag 'the last two iterates of every iterated component were EXACTLY equal'; for a stop by tol > 0 between different iterates or by kmax the statement is false (C04_unconverged_weight_refuted) and nothing is claimed",
+                           "the cell-wise array-of-structs representation of the three pointer tensors, [rebuild] using the first (not last) binding of a repeated external node, and kmax = 0 (model: None; code: unbound/stale variables) are modelling choices validated by the correspondence only",
                            "FGGDerivation.derive() (hyperedge replacement) is not modelled in Gallina: C04_weight_is_factor_product proves that the derivation's weight is the product of its rule instances' terminal factor entries; that derive()'s factor graph has exactly these edges and values is checked per case by re-scoring derive()'s output in the harness (verdict 7)",
                            "positive-weight cycles (no finite attained maximum): the exact enclosure does not converge, verdict 30, case skipped (outside the property's quantifier)"])
     return cov, violations
@@ -158,12 +188,13 @@ def replay(path):
     else:
         obs = (0, tree, tv(dw) if not isinstance(dw, tuple) else (2, Fraction(0)), SRV.obs(spv))
     code = run_coq(VIT, [(grammar_wire(spec), weights_wire(spec, SRV), xi, K_ENCL, obs)], tag="replay")[0]
-    print("sum_product", spv, "derivation", tree, "derive weight", dw, "verdict code", code)
-    return 1 if code not in (0, 30, 31) else 0
+    acode = run_coq(ALG, [(grammar_wire(spec), weights_wire(spec, SRV), xi, (KMAX, TOL), (obs[0], obs[1]))], tag="replayalg")[0]
+    print("sum_product", spv, "derivation", tree, "derive weight", dw, "verdict code", code, "code-shaped model verdict", acode)
+    return 1 if (code not in (0, 30, 31) or (code == 0 and acode not in (0, 31, 32, 33, 34))) else 0
 
 MANIFEST = dict(
     level="proof",
-    text="Coq (Props/C04.v, all closed, no premises about the semiring): derivation trees, their weight and well-formedness are defined once (shared with C01). C04_wf_reflect: the executable well-formedness test decides the Prop (rule of the nonterminal rewritten, every node of the rule instance has a value in its domain, externals agree with the parent, exactly one child per edge) for every grammar. C04_tree_weight_below_kleene: in the Viterbi semiring every well-formed derivation's weight is below the Kleene iterate at its depth. C04_optimal: when the exact max-plus Kleene iteration reaches its fixed point, that value bounds the weight of every well-formed derivation of every nonterminal and assignment (any depth), equals the maximum over the derivations of bounded depth and is attained by one of them unless it is -inf. C04_check_sound: verdict 0 of the check means the returned derivation is well formed, has finite weight, no derivation of the start symbol at that assignment weighs more, sum_product(Viterbi) contains that value and derive()'s re-scored weight equals it. C04_weight_is_factor_product: the weight of a derivation is the product of the terminal factor entries of its rule instances (= the score of derive()'s factor graph). The (max,+) law records are proved (C04_trop_ring, C04_trop_ordered). Every derivation returned by fggs.viterbi on generated FGGs is converted to a tree and judged by the extracted check.",
-    note="Trusted: Coq kernel, extraction cross-checked by vm_compute, harness conversion of FGGDerivation objects to trees and the harness's re-scoring of derive()'s output; the pointer machinery of viterbi and derive() itself are not modelled (observation-level oracle).",
-    technique="Coq-verified oracle (well-formedness + optimality against the exact trop least fixed point, proved to be the maximum over all derivation trees) on implementation outputs",
+    text="Coq (Props/C04.v, all closed, no premises about the semiring): derivation trees, their weight and well-formedness are defined once (shared with C01). C04_wf_reflect: the executable well-formedness test decides the Prop (rule of the nonterminal rewritten, every node of the rule instance has a value in its domain, externals agree with the parent, exactly one child per edge) for every grammar. C04_tree_weight_below_kleene: in the Viterbi semiring every well-formed derivation's weight is below the Kleene iterate at its depth. C04_optimal: when the exact max-plus Kleene iteration reaches its fixed point, that value bounds the weight of every well-formed derivation of every nonterminal and assignment (any depth), equals the maximum over the derivations of bounded depth and is attained by one of them unless it is -inf. C04_check_sound: verdict 0 of the check means the returned derivation is well formed, has finite weight, no derivation of the start symbol at that assignment weighs more, sum_product(Viterbi) contains that value and derive()'s re-scored weight equals it. C04_weight_is_factor_product: the weight of a derivation is the product of the terminal factor entries of its rule instances (= the score of derive()'s factor graph). The (max,+) law records are proved (C04_trop_ring, C04_trop_ordered). Every derivation returned by fggs.viterbi on generated FGGs is converted to a tree and judged by the extracted check. The algorithm itself is modelled in Model/ViterbiAlg.v (arg-max per rule, F_viterbi's value / lhs_pointer / rhs_pointer cells with first-rule filling and strict-improvement overwrite, the per-component loop with the pointer merge of repair b171ddf, reconstruct with fuel): C04_ptr_inv (after any number of passes every finite cell's pointers name a rule and an in-range assignment whose edge product, with the values of the pass the pointer was recorded in, is the cell's value), C04_reconstruct_terminates (if every loop stopped with two equal iterates, reconstruct with fuel #components*(kmax+1) returns, for every finite cell, a well-formed derivation weighing the cell's value), C04_tables_lfp / C04_alg_optimal (the value tables are the least fixed point of the max-plus equations, so viterbi_model's derivation is optimal and equals the enclosure's optimum), C04_alg_check_sound (verdict 0/32 of the second check: the implementation's derivation is well formed and optimal), C04_old_pointer_loop_refuted (the pre-repair pointer discipline loops on X -> X a | b for every fuel), C04_unconverged_weight_refuted (the convergence premise is needed). fggs.viterbi's derivation is compared with viterbi_model's on every generated case (equal, or equal weight up to tie-breaking).",
+    note="Trusted: Coq kernel, extraction cross-checked by vm_compute, harness conversion of FGGDerivation objects to trees and the harness's re-scoring of derive()'s output; log_viterbi_einsum_forward is modelled by its contract (maximum + a maximiser), derive() itself is not modelled.",
+    technique="Coq-verified oracle (well-formedness + optimality against the exact trop least fixed point, proved to be the maximum over all derivation trees) on implementation outputs; code-shaped Gallina model of viterbi.py with invariant proofs, compared with the implementation's derivations up to ties",
     design_ref="DESIGN.md section 6, C04")
